@@ -553,6 +553,14 @@ func (r *Runner) finish(st *State, f *Frame, rv []Val, pos token.Pos) {
 		g := env.EvalBool(c.E, st)
 		r.oblige(st, "post", c.Label, g, pos)
 	}
+	// nogo[label]: no goroutine was started on this path (the work is done in the caller's goroutine)
+	if sp.NoGo != "" {
+		g := True
+		if c, ok := st.ghost["go_count"]; ok {
+			g = Eq(c, Zero)
+		}
+		r.oblige(st, "nogo", sp.NoGo, g, pos)
+	}
 	// cover clauses: the condition must be reachable at some return (an expect-sat obligation)
 	for _, c := range sp.Covers {
 		g := env.EvalBool(c.E, st)
